@@ -441,6 +441,9 @@ fn cli_in(input: &Value, bin: &str, dir: &PathBuf) -> R {
         if let Some(k) = shim.get("fail_from").and_then(Value::as_u64) {
             cmd.env("HDW_SHIM_FAIL_FROM", k.to_string());
         }
+        if let Some(k) = shim.get("slow_after_fail_ms").and_then(Value::as_u64) {
+            cmd.env("HDW_SHIM_SLOW_AFTER_FAIL", k.to_string());
+        }
     }
     let stdin = match input.get("stdin") {
         Some(Value::Null) | None => None,
